@@ -550,6 +550,19 @@ fn semantic_tokens(root: &Relation) -> BTreeMap<String, usize> {
                     *out.entry(format!("order:{}", if o.asc { "asc" } else { "desc" })).or_default() += 1;
                     expr_tokens(&o.expr, &mut out, true);
                 }
+                // the sort keys as a sequence (their order matters), by output position of the key
+                // column where it is one, and what else the same node does: a filter evaluated
+                // before or after a LIMIT, a sort above or below an OFFSET are different queries
+                if !m.order_by().is_empty() {
+                    let pos = |e: &qrlew::expr::Expr| -> String {
+                        m.field_exprs().iter().position(|(_, fe)| *fe == e).map_or("?".to_string(), |i| i.to_string())
+                    };
+                    let seq: Vec<String> = m.order_by().iter().map(|o| format!("{}{}", pos(&o.expr), if o.asc { "+" } else { "-" })).collect();
+                    *out.entry(format!("orderseq:{}", seq.join(","))).or_default() += 1;
+                }
+                if m.filter().is_some() || !m.order_by().is_empty() || m.offset().is_some() {
+                    *out.entry(format!("mapsig:f{}o{}l{}s{}", m.filter().is_some() as u8, m.order_by().len(), m.limit().is_some() as u8, m.offset().is_some() as u8)).or_default() += 1;
+                }
                 if let Some(l) = m.limit() {
                     *out.entry(format!("limit:{}", l)).or_default() += 1;
                 }
